@@ -322,8 +322,9 @@ def space(kind, tier):
             out.append((algo, cfg, combo, 1, n // 8 + 12, dict(small=0.25), None))
         # ... and all of them through ONE pool, one per tick
         prof1 = lambda i: "s9" if i % 97 == 0 else ("s3" if i % 41 == 0 else ("s2" if i % 3 == 0 else "s1"))    # a long tail: the 99th percentile sits in it
-        combo1 = tuple((("I" if i % 25 == 0 else "B"), i, "single", (prof1(i),)) for i in range(n))
-        out.append(("naive", (1, 1, 4, True, False), combo1, 1, sum(int(prof1(i)[1:]) for i in range(n)) + 12, dict(small=0.25), None))
+        n1 = min(n, 30000)      # (one pool works through them one after the other: capped lower)
+        combo1 = tuple((("I" if i % 25 == 0 else "B"), i, "single", (prof1(i),)) for i in range(n1))
+        out.append(("naive", (1, 1, 4, True, False), combo1, 1, sum(int(prof1(i)[1:]) for i in range(n1)) + 12, dict(small=0.25), None))
         return out
     if kind == "susp":
         # preemption under the priority scheduler; the run is cut at every tick around the write-out
